@@ -82,7 +82,10 @@ def _tagged(layout: t.Any, tagname: str, tags: t.Sequence[t.Any]) -> t.Any:
 TAGGED = [_tagged('internal', 'kind', ('circle', 'square')), _tagged('external', 'kind', ('circle', 'square')),
           _tagged(['adjacent', 't', 'c'], 'kind', ('circle', 'square')), _tagged('external', 'ty', (1, 2, 3)),
           ('map', 'Dict', S('str'), S('any')), S('none'), ('seq', 'List', S('int')), CLASSES[3], S('str')]
-FAMILIES = {'tagged': TAGGED, 'temporal': TEMPORAL, 'subtyped': SUBTYPED, 'paths': PATHS, 'maps2': MAPS2, 'numeric': NUMERIC, 'stringy': STRINGY, 'seq': SEQS + CLASSES, 'map': MAPS + CLASSES, 'mixed': NUMERIC + STRINGY + SEQS + MAPS + CLASSES + [S('none'), S('any')]}
+# members that recognise a typed value by comparing it (literals, enums) next to values whose == is not a bool (arrays)
+ARRAYS = [('lit', (None, True)), ('lit', (1, 2)), ('enum', 'IntE'), ('nd', 'int64'), ('nd', None), ('seq', 'List', S('int')), S('int'), S('none'),
+          ('enum', 'IE0'), ('lit', ('a', 'x'))]
+FAMILIES = {'arrays': ARRAYS, 'tagged': TAGGED, 'temporal': TEMPORAL, 'subtyped': SUBTYPED, 'paths': PATHS, 'maps2': MAPS2, 'numeric': NUMERIC, 'stringy': STRINGY, 'seq': SEQS + CLASSES, 'map': MAPS + CLASSES, 'mixed': NUMERIC + STRINGY + SEQS + MAPS + CLASSES + [S('none'), S('any')]}
 
 
 @st.composite
